@@ -225,9 +225,25 @@ def main():
                 st = None
         nviol = len(st.get("violations") or []) if st else 0
         if "WARNING: DATA RACE" in text:
-            m = text.find("WARNING: DATA RACE")
-            path = save_log_replay(pid, "race", text[m:m + 12000])
-            violations.append((pid + "/data-race", path, "race detector report"))
+            # a report counts against the library only if one of the two racing accesses is in library code
+            lib_race = None
+            for rep in text.split("WARNING: DATA RACE")[1:]:
+                rep = rep.split("==================")[0]
+                acc = re.split(r"\n\s*\n", rep)
+                stacks = [a for a in acc if re.match(r"\s*(Read|Write|Previous read|Previous write|Atomic|Previous atomic)", a.lstrip("\n"))]
+                tops = []
+                for a in stacks:
+                    fr = [l.strip() for l in a.splitlines()[1:] if l.startswith("  ") and not l.startswith("      ")]
+                    fr = [x for x in fr if not x.startswith(("runtime.", "sync.", "sync/atomic.", "internal/"))]
+                    tops.append(fr[0] if fr else "")
+                if any("github.com/SAP/go-dblib" in t_ for t_ in tops):
+                    lib_race = rep
+                    break
+            if lib_race is not None:
+                path = save_log_replay(pid, "race", "WARNING: DATA RACE" + lib_race[:12000])
+                violations.append((pid + "/data-race", path, "race detector report"))
+            else:
+                inconclusive.append("%s shard %d: data race inside the harness (no library frame on top of either access)" % (r["name"], s))
         if rc != 0:
             if "HARNESS-BUG" in text:
                 inconclusive.append("%s shard %d: %s" % (r["name"], s, text[text.find("HARNESS-BUG"):][:400]))
